@@ -368,12 +368,18 @@ fn cli_recomp_case(bin: &str, dir: &Path, case: &Value, n: usize, override_input
 		let (size, compr) = class_of(&c, p);
 		(payload_c(p, size, compr), p)
 	}).collect();
-	let sp = dir.join("cli_rsrc.versatiles");
+	// (a versatiles file encodes "no tile" as length 0: a source that stores a zero-byte tile is given as a tar archive)
+	let has_empty_blob = src.raw_tiles().iter().any(|t| t.3.is_empty());
+	let sp = dir.join(if has_empty_blob { "cli_rsrc.tar" } else { "cli_rsrc.versatiles" });
 	let meta = serde_json::to_vec(&json!({"name": meta_name, "tilejson": "3.0.0"})).unwrap();
 	// override_input: the file DECLARES uncompressed tiles although they are stored with src_tc (the situation
 	// `--override-input-compression` exists for); the option has to give the same result as an honest declaration
 	let declared_in = if override_input { "none" } else { src_tc };
-	std::fs::write(&sp, indep::encode_versatiles("pbf", declared_in, &src.raw_tiles(), Some(&meta), &indep::VtChoices { partial_blocks: true, reverse_tiles: false, share_all: false, index_first: false, shuffle_blocks: false, gap: 0 })).unwrap();
+	if has_empty_blob {
+		std::fs::write(&sp, indep::encode_tar("pbf", declared_in, &src.raw_tiles(), Some(&meta), &indep::TarChoices { dot_prefix: false, dir_members: false, ustar: false, reverse: false, meta_name: "tiles.json" })).unwrap();
+	} else {
+		std::fs::write(&sp, indep::encode_versatiles("pbf", declared_in, &src.raw_tiles(), Some(&meta), &indep::VtChoices { partial_blocks: true, reverse_tiles: false, share_all: false, index_first: false, shuffle_blocks: false, gap: 0 })).unwrap();
+	}
 	let path = file_path(dir, fmt, "clir");
 	remove_path(&path);
 	if fmt == "directory" {
